@@ -495,6 +495,36 @@ impl<'a, 'tcx> Cx<'a, 'tcx> {
                 o.push(("named".into(), J::Str(tcx.def_path_str(u.def))));
             } else {
                 o.push(("promoted".into(), J::Bool(true)));
+                // named constants referenced inside the promoted body (e.g. `&URL_SAFE_NO_PAD`)
+                let mut refs: Vec<J> = Vec::new();
+                if u.def.is_local() {
+                    let proms = tcx.promoted_mir(u.def);
+                    if let Some(pb) = proms.get(u.promoted.unwrap()) {
+                        for bbd in pb.basic_blocks.iter() {
+                            for st in bbd.statements.iter() {
+                                if let mir::StatementKind::Assign(b) = &st.kind {
+                                    let mut ops: Vec<&mir::Operand<'tcx>> = Vec::new();
+                                    match &b.1 {
+                                        mir::Rvalue::Use(op, ..) => ops.push(op),
+                                        mir::Rvalue::Aggregate(_, os) => ops.extend(os.iter()),
+                                        mir::Rvalue::Cast(_, op, _) => ops.push(op),
+                                        _ => {}
+                                    }
+                                    for op in ops {
+                                        if let mir::Operand::Constant(cc) = op {
+                                            if let mir::Const::Unevaluated(uu, _) = cc.const_ {
+                                                if uu.promoted.is_none() {
+                                                    refs.push(J::Str(tcx.def_path_str(uu.def)));
+                                                }
+                                            }
+                                        }
+                                    }
+                                }
+                            }
+                        }
+                    }
+                }
+                o.push(("promoted_refs".into(), J::Arr(refs)));
             }
         }
         match ty.kind() {
